@@ -42,7 +42,7 @@ REPO = Path(os.environ.get("VERIF_REPO", "/repo"))
 HARNESS_DIR = VERIF / "harness"
 CACHE = VERIF / ".cache"
 SCRATCH_ROOT = Path(os.environ.get("VERIF_SCRATCH", "/var/tmp"))
-MEM_BUDGET_GB = int(os.environ.get("VERIF_MEM_GB", "52"))
+MEM_BUDGET_GB = int(os.environ.get("VERIF_MEM_GB", "56"))
 CORES = int(os.environ.get("VERIF_CORES", str(os.cpu_count() or 4)))
 BUDGET_FILE = SCRATCH_ROOT / "verif-budget.json"
 
@@ -199,12 +199,17 @@ class Budget:
             BUDGET_FILE.write_text(json.dumps(data))
             return res
 
-    def acquire(self, mem):
+    def acquire(self, mem, patience=None):
+        """patience (s): give up waiting after that long and proceed anyway (used by the
+        out-of-memory retry, which already holds a reservation: waiting forever could deadlock)"""
         mem = min(mem, MEM_BUDGET_GB)
         with self.lock:
             self.counter += 1
             key = "%d:%d" % (os.getpid(), self.counter)
+        t_start = time.time()
         while True:
+            if patience is not None and time.time() - t_start > patience:
+                return key
             def attempt(data):
                 used = sum(v for v in data.values())
                 if used + mem <= MEM_BUDGET_GB and len(data) < CORES:
@@ -433,6 +438,24 @@ def label_of(r):
 
 
 def solve(h, goto, work, extra=None, tag="main", slice_formula=True):
+    """One cbmc run under the harness's memory cap; if the solver runs out of memory the run is
+    repeated ONCE under three times the cap (changed code can need much more memory than the
+    clean code the caps were calibrated on)."""
+    res = solve_once(h, goto, work, extra, tag, slice_formula, h.mem)
+    status, wall, rss, rc, parsed = res
+    oom = status == "done" and (parsed is None or parsed["results"] is None or parsed.get("solver_error"))
+    big = min(48, h.mem * 3)
+    if oom and big > h.mem:
+        key = BUDGET.acquire(big - h.mem, patience=300)
+        try:
+            res2 = solve_once(h, goto, work, extra, tag + "-retry", slice_formula, big)
+        finally:
+            BUDGET.release(key)
+        return (res2[0], wall + res2[1], max(rss, res2[2]), res2[3], res2[4])
+    return res
+
+
+def solve_once(h, goto, work, extra, tag, slice_formula, mem):
     out = work / ("%s.%s.json" % (h.name, tag))
     cmd = ["cbmc"] + CBMC_FLAGS + SOLVER_FLAGS[h.solver] + ["--unwind", str(h.unwind), "--json-ui"]
     if slice_formula and not h.noslice:
@@ -440,7 +463,7 @@ def solve(h, goto, work, extra=None, tag="main", slice_formula=True):
     if extra:
         cmd += extra
     cmd.append(goto)
-    status, wall, rss, rc = run_limited(cmd, str(work), h.mem, h.timeout, str(out))
+    status, wall, rss, rc = run_limited(cmd, str(work), mem, h.timeout, str(out))
     parsed = parse_cbmc_json(out) if status == "done" else None
     if parsed is not None and parsed["results"] is not None:
         errs = [t for k, t in parsed["msgs"] if k == "ERROR"]
